@@ -28,6 +28,9 @@ type Case struct {
 	Prefix       string      `json:"prefix,omitempty"`
 	IncludeFirst bool        `json:"include_first,omitempty"`
 	PreDumb      bool        `json:"pre_dumb,omitempty"` // snip: input was hard-wrapped (else word-wrapped) to the width
+	// wrap-pair: Wrap is first called on (text + Digits, width) and then judged on (text, Digits+width read as one
+	// number): the two calls spell the same characters when text and width are written one after the other
+	Digits string `json:"digits,omitempty"`
 }
 
 func parse(what, s string) (*vorc.Parsed, error) {
@@ -425,6 +428,14 @@ func check(c Case) vrep.Result {
 		in = c.Tree.Eval()
 	}
 	switch c.Op {
+	case "wrap-pair":
+		ansi.Wrap(in+c.Digits, c.Width)
+		var second int
+		fmt.Sscan(c.Digits+fmt.Sprint(c.Width), &second)
+		c2 := c
+		c2.Width = second
+		err = checkWrap(c2, in, &classes)
+		classes = append(classes, "wrap:after-a-call-spelled-alike")
 	case "wrap":
 		err = checkWrap(c, in, &classes)
 	case "dumbwrap":
@@ -460,6 +471,14 @@ func gen(t *rapid.T) Case {
 		return c
 	}
 	c.Tree = vgen.GenInlineStyled(t, 4, 14)
+	if rapid.IntRange(0, 11).Draw(t, "pair") == 0 {
+		c.Op = "wrap-pair"
+		c.Digits = rapid.SampledFrom([]string{"1", "2", "3", "12"}).Draw(t, "pairdigits")
+		c.Width = rapid.IntRange(1, 9).Draw(t, "pairwidth")
+		// the text must not be styled at its end (the digits are appended as plain characters): a plain tail
+		c.Tree = &vgen.SNode{Op: "cat", Kids: []*vgen.SNode{c.Tree, {Op: "text", Text: rapid.SampledFrom([]string{"chapter ", "released in 20", "a", "x y "}).Draw(t, "pairtail")}}}
+		return c
+	}
 	if rapid.IntRange(0, 9).Draw(t, "degenerate") == 0 {
 		c.Width = rapid.IntRange(-3, 0).Draw(t, "width<=0")
 	} else {
